@@ -31,4 +31,21 @@ def holds (c : Case) (o : Obs) : Bool :=
   -- and, unless it failed early, not far fewer (a tenth of the ticks may be lost to scheduling, plus two)
   (failed || decide (ideal ≤ o.pings + 2 + ideal / 3))
 
+/-- What the harness measures for one run of the real `keepalive` AND the real receive loop on a real
+`XMPPTransport` whose connection goes dead: the k-th keepalive write (and every later write) fails while the read
+side stays silent. -/
+structure XObs where
+  pings      : Nat      -- keepalive writes attempted (the failing one included)
+  connClosed : Bool     -- the connection was closed
+  errh       : Nat      -- error callbacks
+  disc       : Nat      -- Disconnected events
+  returned   : Bool     -- both goroutines returned
+  pingsAfter : Nat      -- keepalive writes after the return
+  deriving Repr
+
+/-- "if a keepalive cannot be written the connection is closed so that the loss is detected and reported; once the
+session has ended no further keepalive is sent" -/
+def holdsX (k : Nat) (o : XObs) : Bool :=
+  o.returned && o.pings == k && o.connClosed && o.errh == 1 && o.disc == 1 && o.pingsAfter == 0
+
 end XmppVerif.Spec.C18
